@@ -2,7 +2,7 @@
   C01 (run level, model M5 `Model/Run.lean`) — every test gets exactly one terminal status, the test body
   runs at most once, a disabled test is not run.
 
-  `runTask P insts w t run reason kept cut failLookupsFrom` is the whole observable output of one task
+  `runTask P insts w t run reason kept cut` is the whole observable output of one task
   (validated against the real runner by the run-level replay).  All theorems below quantify over ALL
   projects, fixture-instance states, workers, skip reasons, kept teardown lists, interrupt cuts and
   failing-lookup indices.
@@ -139,15 +139,15 @@ theorem tr_testTask_shape (P : Proj) (svs : List SuiteView) (w : Nat) (path : Pa
     `[start p, end p]` (it is run), `[skipped p]` (it is skipped), with `p` the task's own test: never two
     terminal statuses, never a start without its end, never an event about another test. -/
 theorem test_terminal_pattern (P : Proj) (insts : Insts) (w : Nat) (t : TaskId) (run reason : Bool) (kept : List Td)
-    (cut fl : Option Nat) (hk : t.kind = .test)
+    (cut : Option Nat) (hk : t.kind = .test)
     (sv : SuiteView) (hsv : (allSuites P).find? (fun sv => sv.path == t.path.dropLast) = some sv)
     (ts : TestSpec) (hts : sv.spec.tests.find? (fun x => x.name == t.path.getLast?.getD "") = some ts) :
-    (runTask P insts w t run reason kept cut fl).items.filterMap testLevel =
+    (runTask P insts w t run reason kept cut).items.filterMap testLevel =
       if testDisabledNow P sv ts then [.disabled t.path]
       else if run then [.start t.path, .end_ t.path] else [.skipped t.path] := by
   have h := tr_testTask_shape P (allSuites P) w t.path run reason sv ts
   rw [← taskProgram_test (P := P) (w := w) (run := run) (reason := reason) (kept := kept) hk hsv hts] at h
-  obtain ⟨hs, _, _⟩ := runTask_of_tr P insts w t run reason kept cut fl h (jt_init _)
+  obtain ⟨hs, _, _⟩ := runTask_of_tr P insts w t run reason kept cut h (jt_init _)
   unfold TestShape at hs
   split at hs
   · obtain ⟨r, tm, hl⟩ := hs; rw [hl]; simp [*, testLevel]
@@ -159,10 +159,10 @@ theorem test_terminal_pattern (P : Proj) (insts : Insts) (w : Nat) (t : TaskId) 
 
 /-- a test task emits no suite start/end event -/
 theorem test_task_no_suite_event (P : Proj) (insts : Insts) (w : Nat) (t : TaskId) (run reason : Bool) (kept : List Td)
-    (cut fl : Option Nat) (hk : t.kind = .test) :
-    (runTask P insts w t run reason kept cut fl).items.filterMap suiteLevel = [] := by
+    (cut : Option Nat) (hk : t.kind = .test) :
+    (runTask P insts w t run reason kept cut).items.filterMap suiteLevel = [] := by
   have h := tra_taskProgram_own P (allSuites P) w t run reason kept (.test t.path) (by simp [taskLoc, hk])
-  obtain ⟨hs, _, _⟩ := runTask_of_tr P insts w t run reason kept cut fl h (jt_init _)
+  obtain ⟨hs, _, _⟩ := runTask_of_tr P insts w t run reason kept cut h (jt_init _)
   apply List.filterMap_eq_nil_iff.mpr
   intro x hx
   have := hs x hx
@@ -174,9 +174,9 @@ theorem test_task_no_suite_event (P : Proj) (insts : Insts) (w : Nat) (t : TaskI
 
 /-- a suite-beginning task (run or skipped) emits exactly the `suiteStart` event of its suite -/
 theorem suite_begin_items (P : Proj) (insts : Insts) (w : Nat) (t : TaskId) (run reason : Bool) (kept : List Td)
-    (cut fl : Option Nat) (hk : t.kind = .begin)
+    (cut : Option Nat) (hk : t.kind = .begin)
     (sv : SuiteView) (hsv : (allSuites P).find? (fun sv => sv.path == t.path) = some sv) :
-    ∃ tm, (runTask P insts w t run reason kept cut fl).items =
+    ∃ tm, (runTask P insts w t run reason kept cut).items =
       [.ev (.suiteStart t.path (mdOf sv.spec.name sv.spec.rank) tm)] := by
   have h : Tr (fun _ => True) (fun _ => True) (fun l => ∃ tm, l = [.ev (.suiteStart t.path (mdOf sv.spec.name sv.spec.rank) tm)])
       (taskProgram P (allSuites P) w t run reason kept) := by
@@ -184,31 +184,31 @@ theorem suite_begin_items (P : Proj) (insts : Insts) (w : Nat) (t : TaskId) (run
     simp only [hk, hsv]
     exact tr_bind_pure _ (tr_sop_single 0 _ (fun tm => .suiteStart t.path (mdOf sv.spec.name sv.spec.rank) tm)
       (fun s => ⟨_, rfl, rfl⟩) (fun _ _ _ _ => trivial))
-  exact (runTask_of_tr P insts w t run reason kept cut fl h trivial).1
+  exact (runTask_of_tr P insts w t run reason kept cut h trivial).1
 
 /-- a suite-ending task (run or skipped) emits exactly the `suiteEnd` event of its suite -/
 theorem suite_end_items (P : Proj) (insts : Insts) (w : Nat) (t : TaskId) (run reason : Bool) (kept : List Td)
-    (cut fl : Option Nat) (hk : t.kind = .end_) :
-    ∃ tm, (runTask P insts w t run reason kept cut fl).items = [.ev (.suiteEnd t.path tm)] := by
+    (cut : Option Nat) (hk : t.kind = .end_) :
+    ∃ tm, (runTask P insts w t run reason kept cut).items = [.ev (.suiteEnd t.path tm)] := by
   have h : Tr (fun _ => True) (fun _ => True) (fun l => ∃ tm, l = [.ev (.suiteEnd t.path tm)])
       (taskProgram P (allSuites P) w t run reason kept) := by
     unfold taskProgram
     simp only [hk]
     exact tr_bind_pure _ (tr_sop_single 0 _ (fun tm => .suiteEnd t.path tm)
       (fun s => ⟨_, rfl, rfl⟩) (fun _ _ _ _ => trivial))
-  exact (runTask_of_tr P insts w t run reason kept cut fl h trivial).1
+  exact (runTask_of_tr P insts w t run reason kept cut h trivial).1
 
 /-- the setup / teardown phase tasks (session setup, session teardown, suite setup, suite teardown) emit
     no test-level event and no suite start/end event -/
 theorem phase_task_no_test_or_suite_event (P : Proj) (insts : Insts) (w : Nat) (t : TaskId) (run reason : Bool)
-    (kept : List Td) (cut fl : Option Nat)
+    (kept : List Td) (cut : Option Nat)
     (hk : t.kind = .sessSetup ∨ t.kind = .sessTeardown ∨ t.kind = .init ∨ t.kind = .teardown) :
-    ∀ x ∈ (runTask P insts w t run reason kept cut fl).items, testLevel x = none ∧ suiteLevel x = none := by
+    ∀ x ∈ (runTask P insts w t run reason kept cut).items, testLevel x = none ∧ suiteLevel x = none := by
   have key : ∀ L, taskLoc t = some L → (∀ p, L ≠ .test p) →
-      ∀ x ∈ (runTask P insts w t run reason kept cut fl).items, testLevel x = none ∧ suiteLevel x = none := by
+      ∀ x ∈ (runTask P insts w t run reason kept cut).items, testLevel x = none ∧ suiteLevel x = none := by
     intro L hL hnt x hx
     have h := tra_taskProgram_own P (allSuites P) w t run reason kept L hL
-    obtain ⟨hs, _, _⟩ := runTask_of_tr P insts w t run reason kept cut fl h (jt_init _)
+    obtain ⟨hs, _, _⟩ := runTask_of_tr P insts w t run reason kept cut h (jt_init _)
     have := hs x hx
     cases x with
     | user r u w => exact ⟨rfl, rfl⟩
@@ -301,10 +301,10 @@ theorem cnt_testBody (P : Proj) (svs : List SuiteView) (w : Nat) (path : Path) (
 /-- **The body of a test runs at most once** (whatever the fixtures, hooks, threads, exceptions and
     interrupts do): the task's output contains at most one "enter" record of the test's body. -/
 theorem body_at_most_once (P : Proj) (insts : Insts) (w : Nat) (t : TaskId) (run reason : Bool) (kept : List Td)
-    (cut fl : Option Nat) (hk : t.kind = .test)
+    (cut : Option Nat) (hk : t.kind = .test)
     (sv : SuiteView) (hsv : (allSuites P).find? (fun sv => sv.path == t.path.dropLast) = some sv)
     (ts : TestSpec) (hts : sv.spec.tests.find? (fun x => x.name == t.path.getLast?.getD "") = some ts) :
-    ((runTask P insts w t run reason kept cut fl).items.filter (isBodyEnter t.path)).length ≤ 1 := by
+    ((runTask P insts w t run reason kept cut).items.filter (isBodyEnter t.path)).length ≤ 1 := by
   have h : Tr (JT (.test t.path)) (JT (.test t.path)) (Cnt t.path 1) (testTask P (allSuites P) w t.path run reason sv ts) := by
     by_cases hrun : run = true ∧ testDisabledNow P sv ts = false
     · have h1 := tr_testRun (P := NoBE t.path) P (allSuites P) w t.path sv ts (inner_noBE _ _) (userOk_noBE _)
@@ -332,22 +332,22 @@ theorem body_at_most_once (P : Proj) (insts : Insts) (w : Nat) (t : TaskId) (run
         · rename_i h1 h2; exact absurd ⟨h2, by simpa using h1⟩ hrun
         · obtain ⟨r, tm, rfl⟩ := hl; simp [Cnt, isBodyEnter]
   rw [← taskProgram_test (P := P) (w := w) (run := run) (reason := reason) (kept := kept) hk hsv hts] at h
-  exact (runTask_of_tr P insts w t run reason kept cut fl h (jt_init _)).1
+  exact (runTask_of_tr P insts w t run reason kept cut h (jt_init _)).1
 
 /-- **A skipped task and a disabled test do not run anything**: the output is the single skipped/disabled
     event — no user record at all (no body, no fixture, no hook), hence in particular no body entry. -/
 theorem skipped_or_disabled_runs_nothing (P : Proj) (insts : Insts) (w : Nat) (t : TaskId) (run reason : Bool)
-    (kept : List Td) (cut fl : Option Nat) (hk : t.kind = .test)
+    (kept : List Td) (cut : Option Nat) (hk : t.kind = .test)
     (sv : SuiteView) (hsv : (allSuites P).find? (fun sv => sv.path == t.path.dropLast) = some sv)
     (ts : TestSpec) (hts : sv.spec.tests.find? (fun x => x.name == t.path.getLast?.getD "") = some ts)
     (h : run = false ∨ testDisabledNow P sv ts = true) :
-    (∃ r tm, (runTask P insts w t run reason kept cut fl).items =
+    (∃ r tm, (runTask P insts w t run reason kept cut).items =
         [.ev (if testDisabledNow P sv ts then .testDisabled t.path (mdOf ts.name ts.rank) r tm
               else .testSkipped t.path (mdOf ts.name ts.rank) r tm)]) ∧
-    (runTask P insts w t run reason kept cut fl).items.filter (isBodyEnter t.path) = [] := by
+    (runTask P insts w t run reason kept cut).items.filter (isBodyEnter t.path) = [] := by
   have h1 := tr_testTask_shape P (allSuites P) w t.path run reason sv ts
   rw [← taskProgram_test (P := P) (w := w) (run := run) (reason := reason) (kept := kept) hk hsv hts] at h1
-  obtain ⟨hs, _, _⟩ := runTask_of_tr P insts w t run reason kept cut fl h1 (jt_init _)
+  obtain ⟨hs, _, _⟩ := runTask_of_tr P insts w t run reason kept cut h1 (jt_init _)
   unfold TestShape at hs
   split at hs
   · rename_i hd
@@ -365,34 +365,34 @@ theorem skipped_or_disabled_runs_nothing (P : Proj) (insts : Insts) (w : Nat) (t
 
 open Sample in
 /-- the enabled test `s.t`, run with an interrupt after 3 API acts: started and ended, once -/
-example : (runTask PA Insts.empty 0 ⟨.test, ["s", "t"]⟩ true false [] (some 3) none).items.filterMap testLevel =
+example : (runTask PA Insts.empty 0 ⟨.test, ["s", "t"]⟩ true false [] (some 3)).items.filterMap testLevel =
     [.start ["s", "t"], .end_ ["s", "t"]] := by
-  have := test_terminal_pattern PA Insts.empty 0 ⟨.test, ["s", "t"]⟩ true false [] (some 3) none rfl svA hsvA tA htA
+  have := test_terminal_pattern PA Insts.empty 0 ⟨.test, ["s", "t"]⟩ true false [] (some 3) rfl svA hsvA tA htA
   simpa [testDisabledNow, tA, svA] using this
 
 open Sample in
 /-- the same test skipped: exactly one `skipped` -/
-example : (runTask PA Insts.empty 0 ⟨.test, ["s", "t"]⟩ false true [] none none).items.filterMap testLevel =
+example : (runTask PA Insts.empty 0 ⟨.test, ["s", "t"]⟩ false true [] none).items.filterMap testLevel =
     [.skipped ["s", "t"]] := by
-  have := test_terminal_pattern PA Insts.empty 0 ⟨.test, ["s", "t"]⟩ false true [] none none rfl svA hsvA tA htA
+  have := test_terminal_pattern PA Insts.empty 0 ⟨.test, ["s", "t"]⟩ false true [] none rfl svA hsvA tA htA
   simpa [testDisabledNow, tA, svA] using this
 
 open Sample in
 /-- the disabled test `s.u`, "run": exactly one `disabled`, and nothing is executed -/
-example : (runTask PA Insts.empty 0 ⟨.test, ["s", "u"]⟩ true false [] none none).items.filterMap testLevel =
+example : (runTask PA Insts.empty 0 ⟨.test, ["s", "u"]⟩ true false [] none).items.filterMap testLevel =
     [.disabled ["s", "u"]] := by
-  have := test_terminal_pattern PA Insts.empty 0 ⟨.test, ["s", "u"]⟩ true false [] none none rfl svA hsvB tB htB
+  have := test_terminal_pattern PA Insts.empty 0 ⟨.test, ["s", "u"]⟩ true false [] none rfl svA hsvB tB htB
   simpa [testDisabledNow, tB, svA, PA] using this
 
 open Sample in
-example : (runTask PA Insts.empty 0 ⟨.test, ["s", "u"]⟩ true false [] none none).items.filter (isBodyEnter ["s", "u"]) = [] :=
-  (skipped_or_disabled_runs_nothing PA Insts.empty 0 ⟨.test, ["s", "u"]⟩ true false [] none none rfl svA hsvB tB htB
+example : (runTask PA Insts.empty 0 ⟨.test, ["s", "u"]⟩ true false [] none).items.filter (isBodyEnter ["s", "u"]) = [] :=
+  (skipped_or_disabled_runs_nothing PA Insts.empty 0 ⟨.test, ["s", "u"]⟩ true false [] none rfl svA hsvB tB htB
     (Or.inr rfl)).2
 
 open Sample in
-example : ∃ tm, (runTask PA Insts.empty 0 ⟨.begin, ["s"]⟩ true false [] none none).items =
+example : ∃ tm, (runTask PA Insts.empty 0 ⟨.begin, ["s"]⟩ true false [] none).items =
     [.ev (.suiteStart ["s"] (mdOf "s" 0) tm)] :=
-  suite_begin_items PA Insts.empty 0 ⟨.begin, ["s"]⟩ true false [] none none rfl svA hsvS
+  suite_begin_items PA Insts.empty 0 ⟨.begin, ["s"]⟩ true false [] none rfl svA hsvS
 
 /-- the count bound is tight in the model: a body that is entered is counted -/
 example : ([Item.user 0 (.body ["s", "t"]) "enter", .user 0 (.body ["s", "t"]) "exit"].filter (isBodyEnter ["s", "t"])).length = 1 := by
